@@ -259,31 +259,76 @@ def run_pipeline(driver, cases, bs, tag="run", model_driver=None, harness_env=No
     if bs.modelrun is None:
         res.errors.append("no modelrun binary available")
         return res
-    args = [bs.modelrun, model_driver or driver]
-    if not bs.modelrun_fresh:
-        args.append("--oracle-only")
-    with open(tf) as fin:
-        p = subprocess.run(args, stdin=fin, stdout=subprocess.PIPE, stderr=subprocess.PIPE, timeout=timeout, text=True)
-    if p.returncode != 0:
-        res.errors.append("modelrun exit %d: %s" % (p.returncode, p.stderr[-2000:]))
-        return res
-    for line in p.stdout.splitlines():
-        if line.startswith("MISMATCH"):
-            m = re.match(r'MISMATCH case=(\d+) step=(\d+) op=\[(.*?)\] model=\[(.*?)\] impl=\[(.*)\]$', line)
-            if m and bs.modelrun_fresh:
-                res.mismatches.append(dict(case=int(m.group(1)), step=int(m.group(2)), op=m.group(3), model=m.group(4), impl=m.group(5)))
-        elif line.startswith("ORACLE-FAIL"):
-            m = re.match(r'ORACLE-FAIL case=(\d+) step=(\d+) clause=(\S+) op=\[(.*?)\] ?(.*)$', line)
-            if m:
-                res.oracle.append(dict(case=int(m.group(1)), step=int(m.group(2)), clause=m.group(3), op=m.group(4), detail=m.group(5)))
-        elif line.startswith("STATS"):
-            for kvp in line.split()[1:]:
-                k, v = kvp.split("=")
-                res.stats[k] = int(v)
-        elif line.startswith("HIST"):
-            for kvp in line.split()[1:]:
-                k, v = kvp.rsplit("=", 1)
-                res.hist[k] = int(v)
+    # split the traces into chunks and replay them on the model in parallel
+    blocks = []
+    cur_block = []
+    for line in open(tf):
+        cur_block.append(line)
+        if line.rstrip("\n") == "end":
+            blocks.append(cur_block)
+            cur_block = []
+    nchunks = max(1, min(16, len(blocks) // 20))
+    per = (len(blocks) + nchunks - 1) // nchunks if blocks else 1
+    procs = []
+    for ci in range(nchunks):
+        part = blocks[ci * per:(ci + 1) * per]
+        if not part:
+            continue
+        pf = "%s.part%d" % (tf, ci)
+        with open(pf, "w") as f:
+            for b in part:
+                f.writelines(b)
+        args = [bs.modelrun, model_driver or driver]
+        if not bs.modelrun_fresh:
+            args.append("--oracle-only")
+        env2 = dict(os.environ)
+        env2["MODELRUN_DIGESTS"] = pf + ".dig"
+        procs.append((ci * per, pf, subprocess.Popen(args, stdin=open(pf), stdout=subprocess.PIPE, stderr=subprocess.PIPE, text=True, env=env2)))
+    digests = {}
+    for offset, pf, p in procs:
+        try:
+            out, err = p.communicate(timeout=timeout)
+        except subprocess.TimeoutExpired:
+            p.kill()
+            res.errors.append("modelrun timeout")
+            continue
+        if p.returncode != 0:
+            res.errors.append("modelrun exit %d: %s" % (p.returncode, err[-2000:]))
+            continue
+        for line in out.splitlines():
+            if line.startswith("MISMATCH"):
+                m = re.match(r'MISMATCH case=(\d+) step=(\d+) op=\[(.*?)\] model=\[(.*?)\] impl=\[(.*)\]$', line)
+                if m and bs.modelrun_fresh:
+                    res.mismatches.append(dict(case=int(m.group(1)) + offset, step=int(m.group(2)), op=m.group(3), model=m.group(4), impl=m.group(5)))
+            elif line.startswith("ORACLE-FAIL"):
+                m = re.match(r'ORACLE-FAIL case=(\d+) step=(\d+) clause=(\S+) op=\[(.*?)\] ?(.*)$', line)
+                if m:
+                    res.oracle.append(dict(case=int(m.group(1)) + offset, step=int(m.group(2)), clause=m.group(3), op=m.group(4), detail=m.group(5)))
+            elif line.startswith("STATS"):
+                for kvp in line.split()[1:]:
+                    k, v = kvp.split("=")
+                    if k not in ("distinct_states", "nontrivial_states"):
+                        res.stats[k] = res.stats.get(k, 0) + int(v)
+            elif line.startswith("HIST"):
+                for kvp in line.split()[1:]:
+                    k, v = kvp.rsplit("=", 1)
+                    res.hist[k] = res.hist.get(k, 0) + int(v)
+        try:
+            for line in open(pf + ".dig"):
+                d, nt = line.split()
+                digests[d] = max(digests.get(d, 0), int(nt))
+            os.remove(pf + ".dig")
+        except FileNotFoundError:
+            pass
+        try:
+            os.remove(pf)
+        except FileNotFoundError:
+            pass
+    res.stats["distinct_states"] = len(digests)
+    res.stats["nontrivial_states"] = sum(digests.values())
+    res.digests = digests
+    res.mismatches.sort(key=lambda m: (m["case"], m["step"]))
+    res.oracle.sort(key=lambda m: (m["case"], m["step"]))
     return res
 
 
